@@ -328,7 +328,9 @@ class Ctx:
                 "what": "proof obligation / correspondence no longer checks; failing-input search found nothing",
                 "replay": {"broken": [{"theorem_or_correspondence": n, "message": m[:600]} for n, m in self.broken]},
                 "seed": self.seed, "tier": self.tier})
-        os.makedirs(os.path.join(VERIF, "evidence"), exist_ok=True)
+        # evidence/ describes runs against /repo itself; a run against another tree (HITEN_REPO, used for seeded changes) writes elsewhere
+        evdir = "evidence" if os.path.realpath(REPO) == os.path.realpath("/repo") else "evidence_alt"
+        os.makedirs(os.path.join(VERIF, evdir), exist_ok=True)
         os.makedirs(os.path.join(VERIF, "replays"), exist_ok=True)
         for k in self.known:
             print("KNOWN-FINDING: property=%s %s" % (self.prop, k["what"]), flush=True)
@@ -363,7 +365,7 @@ class Ctx:
         ev = {"property_id": self.prop, "tier": self.tier, "seed": self.seed, "level": self.level,
               "coverage": cov, "assumptions": self.assumptions, "wall_s": round(wall, 2),
               "violations": len(self.violations)}
-        with open(os.path.join(VERIF, "evidence", self.prop + ".json"), "w") as f:
+        with open(os.path.join(VERIF, evdir, self.prop + ".json"), "w") as f:
             json.dump(ev, f, indent=1, default=str)
         self.log("obligations %d/%d, evaluations %d (distinct nontrivial %d), traces validated %d, wall %.1fs" % (
             n_ok, n_ob, self.evaluations, len(self.nontrivial), self.traces_validated, wall))
